@@ -241,4 +241,33 @@ example : verdict (verifyCommit symVerify (exVals 4) [98] exB 5 ⟨exB, [some (e
 example : verdict (verifyCommit symVerify (exVals 4) [99] exB 5 ⟨exB, [some (exVote 1 exB), some (exVote 1 exB), none, some (exVote 3 exB)]⟩) = some .sig := by decide
 example : NoOverflow (exVals 4) := by refine ⟨by decide, by decide⟩
 
+/-! ### Duplicate-vote evidence is evidence of equivocation only -/
+
+/-- evidence is accepted exactly when the two votes are two correctly signed votes of ONE validator (address, index, the
+key the address belongs to) for the same height, round and TYPE and for different blocks — a prevote and a precommit of
+one round, or two votes for the same block, never count -/
+theorem dupev_ok_iff (verify : Verify) (chain : List UInt8) (key : Nat) (kaddr : List UInt8) (a b : Vote) :
+    dupEvVerify verify chain key kaddr a b = .ok ↔
+      (a.height = b.height ∧ a.round = b.round ∧ a.type = b.type ∧ a.addr = b.addr ∧ a.idx = b.idx ∧ a.bid ≠ b.bid ∧
+       kaddr = a.addr ∧ verify key (msgOf chain a) a.sig = true ∧ verify key (msgOf chain b) b.sig = true) := by
+  unfold dupEvVerify
+  repeat' split
+  all_goals simp_all
+  all_goals omega
+
+/-- under the ideal signature functionality: accepted evidence means the key holder signed two different blocks in one step -/
+theorem dupev_sound (chain : List UInt8) (key : Nat) (kaddr : List UInt8) (a b : Vote)
+    (h : dupEvVerify symVerify chain key kaddr a b = .ok) :
+    a.sig = .signed key (msgOf chain a) ∧ b.sig = .signed key (msgOf chain b) ∧
+    (msgOf chain a).height = (msgOf chain b).height ∧ (msgOf chain a).round = (msgOf chain b).round ∧
+    (msgOf chain a).type = (msgOf chain b).type ∧ (msgOf chain a).bid ≠ (msgOf chain b).bid := by
+  obtain ⟨e1, e2, e3, _, _, e6, _, s1, s2⟩ := (dupev_ok_iff symVerify chain key kaddr a b).mp h
+  simp only [symVerify, decide_eq_true_eq] at s1 s2
+  exact ⟨s1, s2, e1, e2, e3, e6⟩
+
+example : dupEvVerify symVerify [99] 1 [1] (exVote 1 exB) (exVote 1 ⟨zeroHash, 2, [2]⟩) = .ok := by decide
+/-- a prevote and a precommit of the same round are no evidence -/
+example : dupEvVerify symVerify [99] 1 [1] (exVote 1 exB)
+    (let v : Vote := { (exVote 1 ⟨zeroHash, 2, [2]⟩) with type := 1 }; { v with sig := .signed 1 (msgOf [99] v) }) = .hrs := by decide
+
 end Props.C03
